@@ -156,16 +156,16 @@ type c18Map struct {
 }
 
 type c18Case struct {
-	Hosts       []c18Host
-	ConnectTo   []c18Map
-	TTLms       int // -1: caching disabled (option is a no-op), 0: forever, > 0: refresh interval
-	DNSFirst    bool // documented order: DNSCaching, then ConnectTo
-	UseDNS      bool
-	Proxy       bool
-	KeepAlive   bool
-	Dials       int
-	Goroutines  int      // 1 = sequential history
-	Targets     []string // addresses dialled, cycled ("name:port")
+	Hosts      []c18Host
+	ConnectTo  []c18Map
+	TTLms      int  // -1: caching disabled (option is a no-op), 0: forever, > 0: refresh interval
+	DNSFirst   bool // documented order: DNSCaching, then ConnectTo
+	UseDNS     bool
+	Proxy      bool
+	KeepAlive  bool
+	Dials      int
+	Goroutines int      // 1 = sequential history
+	Targets    []string // addresses dialled, cycled ("name:port")
 }
 
 func (c c18Case) resolved(host string) ([]string, bool) {
@@ -299,7 +299,7 @@ func evalC18(c c18Case) (multi bool, err error) {
 	for _, m := range c.ConnectTo {
 		mapped[m.Src] = m
 	}
-	used := map[string]map[string][]int{} // mapped source -> replacement -> calls that used it
+	used := map[string]map[string][]int{}     // mapped source -> replacement -> calls that used it
 	seenAddr := map[string]map[string][]int{} // resolved name -> address -> calls that dialled it
 	what := fmt.Sprintf("hosts %v, connect-to %v, ttl %dms, dns-first %v, dns %v, %d dials by %d goroutines", c.Hosts, c.ConnectTo, c.TTLms, c.DNSFirst, c.UseDNS, c.Dials, c.Goroutines)
 	for i := 0; i < c.Dials; i++ {
